@@ -201,6 +201,8 @@ class POP(BaseModelSingleSet):
     def _fit_algorithm(self, X: DataArray) -> Self:
         sample_name = self.sample_name
         feature_name = self.feature_name
+        # The results of a new fit are not sorted yet
+        self.sorted = False
 
         # Transform in PC space
         X = self.pca.fit_transform(X)
